@@ -173,7 +173,7 @@ def run(ctx):
     # for a cause)
     runs = summ["runs"]
     sync_lines = sync_rej = sync_waits = 0
-    keep = {"reset", "setN", "resend", "ack", "nack", "closeQuit", "syncWait", "syncDone"}
+    keep = {"reset", "setN", "resend", "ack", "nack", "closeQuit", "syncWait", "syncDone", "pgEnd"}
     sp = os.path.join(out, "c06_sync.ndjson")
     with open(sp, "w") as fh:
         for r in runs:
@@ -187,6 +187,8 @@ def run(ctx):
                     sync_waits += x["ev"] == "syncDone"
     if os.path.getsize(sp) > 0:
         def skey(ln, cur, idx):
+            if ln.get("ev") == "pgEnd":
+                return "syncer:wait-never-ends"
             return "syncer:wait-ends-without-cause-or-late:%s" % ln.get("ep")
         sync_lines, sync_rej, _ = linetrace.validate(
             ctx, "Trace_Syncer", SYNC_TR, sp, "tr_sync", skey,
